@@ -1,7 +1,7 @@
 //! Execution context shared by all scenarios: event log with portable /
 //! local lines, rolling digests, probes, violations.
 
-use std::collections::BTreeMap;
+use std::collections::{BTreeMap, BTreeSet};
 use std::fmt::Write;
 
 #[derive(Clone, Debug)]
@@ -47,6 +47,8 @@ pub struct Ctx {
     pub n_lines: u64,
     pub n_portable: u64,
     pub probes: BTreeMap<&'static str, u64>,
+    /// Coarse classes of internal states reached (scenario-defined encoding).
+    pub classes: BTreeSet<u64>,
     pub violations: Vec<Violation>,
     /// Set when a run must not continue (e.g. a panic left objects undefined).
     pub aborted: bool,
@@ -65,6 +67,7 @@ impl Ctx {
             n_lines: 0,
             n_portable: 0,
             probes: BTreeMap::new(),
+            classes: BTreeSet::new(),
             violations: Vec::new(),
             aborted: false,
             scratch: String::new(),
@@ -135,6 +138,7 @@ pub struct Outcome {
     pub n_lines: u64,
     pub n_portable: u64,
     pub probes: BTreeMap<&'static str, u64>,
+    pub classes: BTreeSet<u64>,
     pub lines: Vec<String>,
     pub steps: usize,
 }
@@ -149,6 +153,7 @@ impl Ctx {
             n_lines: self.n_lines,
             n_portable: self.n_portable,
             probes: self.probes,
+            classes: self.classes,
             lines: self.lines,
             steps: self.step,
         }
